@@ -1,0 +1,11 @@
+//go:build verif
+
+package generate
+
+import "github.com/vektah/gqlparser/v2/ast"
+
+// VerifErrorf exposes errorf (the constructor of every positioned diagnostic)
+// to the verification harness under /verif.
+func VerifErrorf(pos *ast.Position, msg string, args ...interface{}) error {
+	return errorf(pos, msg, args...)
+}
